@@ -4,10 +4,13 @@
    acknowledgement / timeout of a recorded in-flight packet refunds exactly its recorded amount.
    Environment assumptions, per call (ok_call): a success acknowledgement only ever arrives for an in-flight
    packet; packet sequences are fresh; an admin-forced recovery selects refunded packets only; UpdateConfig does
-   not re-configure the staked-asset denom.  No donations (coins sent outside these three payments). *)
-From MW Require Import Staking.
-From MW.Proofs Require Import Tactics Handlers Maps Invariant Recovery Ledger Solvency.
+   not re-configure the staked-asset denom.  No donations (coins sent outside these three payments).
+   At the end of the file the same equations hold along every history of the world model of World.v, where the first two
+   assumptions are no longer assumed but proved (C02_world_solvency). *)
+From MW Require Import Base Wire Staking World.
+From MW.Proofs Require Import Tactics Handlers Maps Invariant Recovery Ledger Solvency WorldProofs WorldSolvency.
 From MW.Properties Require C08.
+From MW.Properties Require Import C01.
 Open Scope N_scope.
 
 (* balance + swept + paid-out = amounts received for finished batches + retained fees + refunded transfers
@@ -15,13 +18,13 @@ Open Scope N_scope.
    The `swept` term is the recorded finding F4 (see C02_sweep_refuted): it is 0 unless a LiquidStake finds
    LST = 0 with staked > 0, which requires a ResumeContract(staked > 0, LST = 0). *)
 Theorem C02_balance : forall va dv av sw cs,
-  Solvent sw -> all_ok va dv av sw cs ->
-  let '(s, w) := fold_left (wstep va dv av) cs sw in
+  Solvent sw -> Solvency.all_ok va dv av sw cs ->
+  let '(s, w) := fold_left (Solvency.wstep va dv av) cs sw in
   (w_balD w + Z.of_N (w_swept w) + Z.of_N (w_paid w)
    = Z.of_N (received_total s) + Z.of_N (total_fees (st s)) + Z.of_N (refundable_total (D_of s) s))%Z.
 Proof.
   intros va dv av sw cs H Hok. pose proof (solvency va dv av sw cs H Hok) as HS.
-  destruct (fold_left (wstep va dv av) cs sw) as [s w]. destruct HS as (_ & _ & _ & _ & E & _). exact E.
+  destruct (fold_left (Solvency.wstep va dv av) cs sw) as [s w]. destruct HS as (_ & _ & _ & _ & E & _). exact E.
 Qed.
 Print Assumptions C02_balance.
 
@@ -52,7 +55,7 @@ Definition kf_calls : list call :=
           (LiquidStake None None None) ].
 Theorem C02_sweep_refuted :
   let va := fun _ _ => true in let dv := fun _ _ _ => @None string in let av := fun _ : string => true in
-  let '(s, w) := fold_left (wstep va dv av) kf_calls (kf_store, {| w_balD := 0; w_balL := 0; w_swept := 0; w_paid := 0 |}) in
+  let '(s, w) := fold_left (Solvency.wstep va dv av) kf_calls (kf_store, {| w_balD := 0; w_balL := 0; w_swept := 0; w_paid := 0 |}) in
   w_balD w = 0%Z /\ total_fees (st s) = 100 /\ w_swept w = 100 /\ received_total s = 0 /\ refundable_total (D_of s) s = 0.
 Proof. vm_compute. repeat split; reflexivity. Qed.
 Print Assumptions C02_sweep_refuted.
@@ -66,3 +69,51 @@ Proof.
   assert (total_lst (st s) = 0) by lia. rewrite (H H0). reflexivity.
 Qed.
 Print Assumptions C02_no_sweep.
+
+(* --- the world (World.v): transactions with their replies, relays with any outcome in any order, stray callbacks,
+   rolled-back transactions --- *)
+(* Along every such history the ghost wallet stays solvent: its staked-asset balance (plus what was swept, F4, and paid)
+   equals received-and-unwithdrawn + retained fees + refunded transfers awaiting re-send, and its LST balance equals the
+   pending batch + refunded LST deliveries. What remains assumed per transaction (exec_ok): the channel and the
+   staked-asset denom are not reconfigured and an admin-forced recovery names refunded transfers only. That a success
+   acknowledgement reaches only a transfer still in flight and that packet sequences are fresh -- assumptions of
+   C02_balance -- are consequences of the world invariant here. *)
+Theorem C02_world_solvency : forall va dv av w wal evs,
+  W_inv w -> Solvent (w_store w, wal) -> events_ok va dv av (exec_ok va dv av) w evs ->
+  Solvent (w_store (wrun va dv av w evs), wwallet va dv av w wal evs).
+Proof. exact world_solvency. Qed.
+Print Assumptions C02_world_solvency.
+
+Theorem C02_world_solvency_from_instantiate : forall va dv av e i m s r evs,
+  instantiate va e i m = Ok (s, r) -> D_of s <> L_of s -> events_ok va dv av (exec_ok va dv av) (world0 s) evs ->
+  Solvent (w_store (wrun va dv av (world0 s) evs),
+           wwallet va dv av (world0 s) {| w_balD := 0; w_balL := 0; w_swept := 0; w_paid := 0 |} evs).
+Proof.
+  intros va dv av e i m s r evs H Hne Hok. apply world_solvency; [eapply world0_inv; exact H | | exact Hok].
+  cbn [world0 w_store]. eapply solvent_init; eassumption.
+Qed.
+Print Assumptions C02_world_solvency_from_instantiate.
+
+(* the history of C01_world_example meets these hypotheses; its wallet ends empty: 700 in, 700 forwarded, 700 refunded,
+   700 re-sent; 700 LST minted and delivered *)
+Open Scope string_scope.
+Definition wal0 : wallet := {| w_balD := 0; w_balL := 0; w_swept := 0; w_paid := 0 |}.
+Example C02_world_example :
+  Solvent (w_store (world0 ex_wstore), wal0)
+  /\ events_ok ex_va ex_dv ex_av (exec_ok ex_va ex_dv ex_av) (world0 ex_wstore) ex_events
+  /\ wwallet ex_va ex_dv ex_av (world0 ex_wstore) wal0 ex_events = {| w_balD := 0; w_balL := 0; w_swept := 0; w_paid := 0 |}.
+Proof.
+  split.
+  { unfold Solvent, world0, wal0. cbn [w_store].
+    split. { unfold I_batches, ex_wstore. cbn [batches pending_id]. split; [cbn; split; [intros ? [] | exact I]|]. split; [lia|]. split.
+             - intros k Hk. assert (k = 1) by lia. subst. cbn. discriminate.
+             - intros k b. cbn. destruct (k =? 1)%N eqn:E; [|discriminate]. intros H; injection H as <-. assert (k = 1) by lia. subst.
+               unfold batch_ok. cbn. repeat split; try lia; try discriminate; reflexivity. }
+    split. { unfold I_packets, ex_wstore. cbn. repeat split; try exact I. intros k p H. discriminate. }
+    split. { unfold I_status, ex_wstore. cbn. intros k p H. discriminate. }
+    split. { vm_compute. discriminate. }
+    split; vm_compute; reflexivity. }
+  split; [| vm_compute; reflexivity].
+  unfold ex_events. cbn [events_ok]. unfold exec_ok.
+  repeat split; try exact I; try (intros s' r H; vm_compute in H; inversion H; subst; reflexivity).
+Qed.
